@@ -90,6 +90,9 @@ func coqSteps(steps []Step) string {
 		if tag == opTracer || tag == opInstall || tag == opInstallT {
 			arg = 0
 		}
+		if tag == opInst && s.Same > 0 {
+			tag, arg = 11, s.Arg*1024+s.Same
+		}
 		items[i] = fmt.Sprintf("(%d,%d)", tag, arg)
 	}
 	return vgen.List(items)
@@ -103,6 +106,12 @@ func descSteps(steps []Step) []string {
 		switch s.Op {
 		case opInst:
 			out[j] = fmt.Sprintf("%d: %s on meter %d -> instrument %d", j, kindNames[s.Kind], s.Arg, j)
+			if s.Same > 0 {
+				out[j] += fmt.Sprintf(" (the identity of instrument %d requested again)", s.Same)
+			}
+			if s.CB {
+				out[j] += fmt.Sprintf(" with creation-time callback %d", j)
+			}
 		case opRegister:
 			out[j] = fmt.Sprintf("%d: RegisterCallback on meter %d instruments %v -> registration %d", j, s.Arg, s.Obs, j)
 		case opRecord:
@@ -302,7 +311,13 @@ func judge(w *vgen.Writer, oc outcome) {
 				w.Tally("kind:" + kindNames[s.Kind])
 			}
 		}
-		term := vgen.App("CSeq", coqSteps(oc.sc.Steps), coqHist(res.Events), coqLive(res.Live))
+		var cbs []string
+		for j, s := range oc.sc.Steps {
+			if s.Op == opInst && s.CB {
+				cbs = append(cbs, fmt.Sprint(j))
+			}
+		}
+		term := vgen.App("CSeq", coqSteps(oc.sc.Steps), vgen.List(cbs), coqHist(res.Events), coqLive(res.Live))
 		w.Add(term, desc, oc.label, nontrivial)
 	} else {
 		desc["stats"] = res.Stats
